@@ -3,15 +3,15 @@ import importlib
 
 # property -> list of (rule module, configs it needs in quick tier)
 PROPERTY_RULES = {
-    "C01": ["r_a10", "r_a9", "r_a8", "r_a2", "r_o3", "r_a12"],
-    "C02": ["r_a6", "r_a4", "r_a8", "r_a2", "r_o3", "r_e1", "r_b1"],
+    "C01": ["r_a10", "r_a9", "r_a8", "r_a2", "r_o3", "r_a12", "r_a13"],
+    "C02": ["r_a6", "r_a4", "r_a8", "r_a2", "r_o3", "r_e1", "r_b1", "r_a13"],
     "C03": ["r_a2", "r_a3"],
     "C04": ["r_a8", "r_e1", "r_a6"],
     "C05": ["r_b1", "r_o3", "r_a2", "r_a12"],
     "C06": ["r_b1", "r_o3", "r_a2"],
-    "C07": ["r_a12"],
+    "C07": ["r_a12", "r_a13"],
     "C08": ["r_a11", "r_o3", "r_a2", "r_a4"],
-    "C09": ["r_c4", "r_c3", "r_c1", "r_c5"],
+    "C09": ["r_c4", "r_c3", "r_c1", "r_c5", "r_c7"],
     "C10": ["r_c2", "r_c1", "r_e1"],
     "C11": ["r_c2", "r_c1", "r_a6", "r_c5", "r_c4", "r_e1"],
     "C12": ["r_c4", "r_e1"],
@@ -38,7 +38,8 @@ CLAUSES = {
            "non-overlap guard before copy_nonoverlapping); split halves use one cut operand; merge needs all four adjacency conjuncts; Clone never shares; "
            "the reservation helper returns false only on paths without any state write and true only through a justified cap write; request arithmetic cannot wrap",
     "C07": "no byte-buffer allocation and no byte copy is reachable from any zero-copy operation (vtable dispatch expanded), apart from verified exempt "
-           "edges; clone returns the (ptr, len) it was given",
+           "edges; clone returns the (ptr, len) it was given; slice/slice_ref re-base by exactly the range start; empty split_off/split_to "
+           "results are built at self.ptr + at / self.ptr",
     "C08": "is_unique slot functions return constant false exactly for families whose into_mut can never hand the memory over, `count == 1` (true on the "
            "unshared branch) otherwise; try_into_mut is exactly is_unique ? Ok(into) : Err(self); every take-over re-validates uniqueness with Acquire",
     "C03": "on every CFG path of every vtable/drop/conversion/duplication function the handle's reference is disposed exactly once (minted exactly once "
@@ -50,7 +51,9 @@ CLAUSES = {
     "C13": "in every safe &mut-self method with integer/range/slice arguments no state write can reach an argument-dependent panic (panic strictly before "
            "mutation); argument checks dominate the unchecked operations they protect in release builds; overflowing requests cannot wrap silently",
     "C09": "Chain touches its second half only on paths where the first is exhausted or fully accounted for (incl. chunks_vectored); "
-           "Take truncates by min(inner, limit) and pairs every inner advance with limit -= same operand",
+           "Take truncates by min(inner, limit) and pairs every inner advance with limit -= same operand; the five leaf Bufs, the inherited defaults "
+           "and IntoIter: remaining()/chunk() cut from one value, advance moves the cursor by exactly its argument, VecDeque lists front before back, "
+           "IntoIter yields chunk()[0] and advances by 1 exactly while bytes remain",
     "C12": "Take/Limit: remaining = min(inner, limit), chunk truncated by the same min, guarded paired bookkeeping; Chain order for both traits; "
            "Reader/Writer transfer exactly min(available, requested), return it, never construct Err; accessors are plain field accessors",
     "C05": "free/take-over decisions are taken on the result of the atomic RMW itself (fetch_sub == 1; CAS 1->0; publishing CAS of a fresh control block "
